@@ -264,6 +264,17 @@ class AEval:
         if fn in ("list", "tuple", "sorted") and len(args) == 1:
             v = self.ev(args[0])
             return tuple(sorted(v.keys() if isinstance(v, dict) else v))
+        if isinstance(e.func, ast.Attribute) and short in ("get", "setdefault", "pop") and 1 <= len(args) <= 2 and not e.keywords:
+            recv = self.ev(e.func.value)
+            if isinstance(recv, dict):
+                k = self.ev(args[0])
+                if k in recv:
+                    return recv[k]
+                if len(args) == 2:
+                    return self.ev(args[1])
+                if short == "get":
+                    return None
+                raise ModelError("KeyError")
         if fn == "len" and len(args) == 1:
             return len(self.ev(args[0]))
         if fn == "bool" and len(args) == 1:
